@@ -215,435 +215,7 @@ func ruleBprintf(e *Env, rule string, bp *ssa.Function) {
 
 // ---- C05.pos
 
-func ruleC05Pos(e *Env, widths, hyph []int) {
-	const rule = "C05.pos"
-	if hyph == nil {
-		e.S.Unk(rule, "uu.DefaultFormatter", "layout", "formatter layout not available (see C05.layout)", "")
-		return
-	}
-	dp := e.Fn(rule, "uu", "DefaultParser")
-	if dp == nil {
-		return
-	}
-	site := flow.FnName(dp)
-	// hyphen tests: input[offset+K] compared with '-'
-	got := map[int]bool{}
-	for _, b := range dp.Blocks {
-		for _, in := range b.Instrs {
-			bo, ok := in.(*ssa.BinOp)
-			if !ok || (bo.Op != token.NEQ && bo.Op != token.EQL) {
-				continue
-			}
-			k, isK := flow.ConstInt(bo.Y)
-			if !isK || k != '-' {
-				continue
-			}
-			ld, ok := bo.X.(*ssa.UnOp)
-			if !ok {
-				continue
-			}
-			ia, ok := ld.X.(*ssa.IndexAddr)
-			if !ok || flow.RootParam(ia.X) != dp.Params[0] {
-				continue
-			}
-			add, ok := ia.Index.(*ssa.BinOp)
-			if !ok || add.Op != token.ADD {
-				continue
-			}
-			if off, ok := flow.ConstInt(add.Y); ok {
-				if _, isPhi := add.X.(*ssa.Phi); isPhi {
-					got[int(off)] = true
-				}
-			}
-		}
-	}
-	var gs []int
-	for k := range got {
-		gs = append(gs, k)
-	}
-	sort.Ints(gs)
-	if fmt.Sprint(gs) == fmt.Sprint(hyph) {
-		e.S.Ok(rule, site, "hyphen offsets", fmt.Sprintf("parser tests '-' at offset+%v, exactly where the formatter writes them", gs), e.Pos(dp))
-	} else {
-		e.S.Bad(rule, site, "hyphen offsets", fmt.Sprintf("parser tests '-' at offset+%v, the formatter writes hyphens at %v", gs, hyph), e.Pos(dp), "")
-	}
-	st := e.table(rule, "uu", "starts")
-	if st == nil {
-		return
-	}
-	vals, err := st.SliceValues()
-	if err != nil {
-		e.S.Unk(rule, "uu.starts", "literal", err.Error(), e.tpos("uu", st))
-		return
-	}
-	total := len(hyph)
-	for _, w := range widths {
-		total += w
-	}
-	want := map[int]bool{}
-	for i := 0; i < total; i++ {
-		want[i] = true
-	}
-	for _, h := range hyph {
-		delete(want, h)
-	}
-	prev := int64(-1)
-	okAll := true
-	for i, v := range vals {
-		k, ok := int64(0), false
-		if v != nil {
-			k, ok = constant.Int64Val(v)
-		}
-		if !ok {
-			e.S.Unk(rule, "uu.starts", fmt.Sprintf("[%d]", i), "non-constant entry", e.tpos("uu", st))
-			return
-		}
-		if k <= prev {
-			e.S.Bad(rule, "uu.starts", fmt.Sprintf("[%d]", i), fmt.Sprintf("entry %d is not greater than its predecessor %d (digit pairs out of order)", k, prev), e.tpos("uu", st), "")
-			okAll = false
-		}
-		prev = k
-		if !want[int(k)] || !want[int(k)+1] {
-			e.S.Bad(rule, "uu.starts", fmt.Sprintf("[%d]", i), fmt.Sprintf("digit pair at %d,%d overlaps a hyphen, another pair, or lies outside the %d-character text", k, k+1, total), e.tpos("uu", st), "")
-			okAll = false
-		}
-		delete(want, int(k))
-		delete(want, int(k)+1)
-	}
-	if len(want) != 0 {
-		var miss []int
-		for k := range want {
-			miss = append(miss, k)
-		}
-		sort.Ints(miss)
-		e.S.Bad(rule, "uu.starts", "coverage", fmt.Sprintf("text positions %v are neither hyphens nor covered by a digit pair: those digits are never read", miss), e.tpos("uu", st), "")
-		okAll = false
-	}
-	if okAll {
-		e.S.Ok(rule, "uu.starts", "coverage", fmt.Sprintf("%d strictly increasing pairs cover exactly the %d hex positions of the %d-character layout", len(vals), 2*len(vals), total), e.tpos("uu", st))
-	}
-	if len(vals) != 16 {
-		e.S.Bad(rule, "uu.starts", "length", fmt.Sprintf("%d digit pairs, a 128-bit ID has 16 bytes", len(vals)), e.tpos("uu", st), "")
-	} else {
-		e.S.Ok(rule, "uu.starts", "length", "16 digit pairs = 128 bits", e.tpos("uu", st))
-	}
-}
-
 // ---- C05.nib
-
-// intExpr evaluates an integer SSA expression over bindings of loop counters (abstract index set, not inputs).
-func intExpr(v ssa.Value, bind map[ssa.Value]int64, depth int) (int64, bool) {
-	if depth > 16 {
-		return 0, false
-	}
-	if k, ok := bind[v]; ok {
-		return k, true
-	}
-	if k, ok := flow.ConstInt(v); ok {
-		return k, true
-	}
-	switch x := v.(type) {
-	case *ssa.Convert:
-		return intExpr(x.X, bind, depth+1)
-	case *ssa.BinOp:
-		a, ok1 := intExpr(x.X, bind, depth+1)
-		b, ok2 := intExpr(x.Y, bind, depth+1)
-		if !ok1 || !ok2 {
-			return 0, false
-		}
-		switch x.Op {
-		case token.ADD:
-			return a + b, true
-		case token.SUB:
-			return a - b, true
-		case token.MUL:
-			return a * b, true
-		case token.SHL:
-			if b < 0 || b > 62 {
-				return 0, false
-			}
-			return a << uint(b), true
-		case token.SHR:
-			if b < 0 || b > 62 || a < 0 {
-				return 0, false
-			}
-			return a >> uint(b), true
-		case token.AND:
-			return a & b, true
-		case token.OR:
-			return a | b, true
-		case token.QUO:
-			if b == 0 {
-				return 0, false
-			}
-			return a / b, true
-		case token.REM:
-			if b == 0 {
-				return 0, false
-			}
-			return a % b, true
-		}
-	}
-	return 0, false
-}
-
-func ruleC05Nib(e *Env, hyph []int) {
-	const rule = "C05.nib"
-	dp := e.Fn(rule, "uu", "DefaultParser")
-	pd := e.F("uu", "parseDigit")
-	startsG := e.V("uu", "starts")
-	if dp == nil || pd == nil || startsG == nil || hyph == nil {
-		if dp != nil {
-			e.S.Unk(rule, flow.FnName(dp), "anchors", "parseDigit, starts or the formatter layout not available", e.Pos(dp))
-		}
-		return
-	}
-	site := flow.FnName(dp)
-	st := e.table(rule, "uu", "starts")
-	if st == nil {
-		return
-	}
-	vals, err := st.SliceValues()
-	if err != nil {
-		return
-	}
-	var starts []int64
-	for _, v := range vals {
-		k, _ := constant.Int64Val(v)
-		starts = append(starts, k)
-	}
-	// the accumulating store: *(&n[elem]) = *(&n[elem]) | (v << shift)
-	var store *ssa.Store
-	for _, b := range dp.Blocks {
-		for _, in := range b.Instrs {
-			s, ok := in.(*ssa.Store)
-			if !ok {
-				continue
-			}
-			ia, ok := s.Addr.(*ssa.IndexAddr)
-			if !ok {
-				continue
-			}
-			if _, isAlloc := ia.X.(*ssa.Alloc); !isAlloc {
-				continue
-			}
-			if _, isConst := ia.Index.(*ssa.Const); isConst {
-				continue
-			}
-			if store != nil {
-				e.S.Unk(rule, site, "accumulator", "more than one computed-index store into a local array", e.Pos(dp))
-				return
-			}
-			store = s
-		}
-	}
-	if store == nil {
-		e.S.Unk(rule, site, "accumulator", "no `n[expr] |= digit << expr` store found (idioms: two-word local array accumulated with OR)", e.Pos(dp))
-		return
-	}
-	ia := store.Addr.(*ssa.IndexAddr)
-	arr := ia.X.(*ssa.Alloc)
-	or, ok := store.Val.(*ssa.BinOp)
-	if !ok || or.Op != token.OR {
-		e.S.Bad(rule, site, "accumulator", "digits are not accumulated with OR (earlier digits may be overwritten)", e.posOf(store), "")
-		return
-	}
-	var shl *ssa.BinOp
-	var old ssa.Value
-	for _, side := range [][2]ssa.Value{{or.X, or.Y}, {or.Y, or.X}} {
-		if b, ok := side[0].(*ssa.BinOp); ok && b.Op == token.SHL {
-			shl, old = b, side[1]
-		}
-	}
-	if shl == nil {
-		e.S.Unk(rule, site, "accumulator", "the OR-ed value is not `digit << shift`", e.posOf(store))
-		return
-	}
-	if ld, ok := old.(*ssa.UnOp); !ok || ld.X != ssa.Value(ia) {
-		if ld2, ok2 := old.(*ssa.UnOp); !ok2 || !sameIndexAddr(ld2.X, ia) {
-			e.S.Bad(rule, site, "accumulator", "the OR does not accumulate into the same array element it stores to", e.posOf(store), "")
-			return
-		}
-	}
-	// digit value v: Extract #0 of parseDigit(input[offset+start+j], …)
-	vEx, ok := flow.StripConv(shl.X).(*ssa.Extract)
-	var pdCall *ssa.Call
-	if ok {
-		pdCall, _ = vEx.Tuple.(*ssa.Call)
-	}
-	if pdCall == nil || e.C.StaticCallee(&pdCall.Call) != pd || vEx.Index != 0 {
-		e.S.Unk(rule, site, "digit source", "the shifted value is not result #0 of parseDigit", e.posOf(store))
-		return
-	}
-	// text position expression of the byte given to parseDigit
-	ld, ok := pdCall.Call.Args[0].(*ssa.UnOp)
-	var posIA *ssa.IndexAddr
-	if ok {
-		posIA, _ = ld.X.(*ssa.IndexAddr)
-	}
-	if posIA == nil || flow.RootParam(posIA.X) != dp.Params[0] {
-		e.S.Unk(rule, site, "digit source", "parseDigit is not applied to a byte of the input", e.posOf(pdCall))
-		return
-	}
-	// loop counters: i = range index over starts (phi+1), start = starts[i], j = phi(0, j+1), offset = phi of constants
-	var iVal, jPhi, startVal, offPhi ssa.Value
-	var walk func(v ssa.Value, depth int)
-	walk = func(v ssa.Value, depth int) {
-		if depth > 12 || v == nil {
-			return
-		}
-		switch x := v.(type) {
-		case *ssa.BinOp:
-			if ph, ok := x.X.(*ssa.Phi); ok && x.Op == token.ADD {
-				if k, ok := flow.ConstInt(x.Y); ok && k == 1 && len(ph.Edges) == 2 {
-					if k0, ok := flow.ConstInt(ph.Edges[0]); ok && k0 == -1 && ph.Edges[1] == ssa.Value(x) {
-						iVal = x
-						return
-					}
-				}
-			}
-			walk(x.X, depth+1)
-			walk(x.Y, depth+1)
-		case *ssa.Convert:
-			walk(x.X, depth+1)
-		case *ssa.Phi:
-			allConst := len(x.Edges) > 0
-			for _, ed := range x.Edges {
-				if _, ok := flow.ConstInt(ed); !ok {
-					allConst = false
-				}
-			}
-			if allConst {
-				offPhi = x
-				return
-			}
-			if len(x.Edges) == 2 {
-				if k0, ok := flow.ConstInt(x.Edges[0]); ok && k0 == 0 {
-					if inc, ok := x.Edges[1].(*ssa.BinOp); ok && inc.Op == token.ADD && inc.X == ssa.Value(x) {
-						jPhi = x
-						return
-					}
-				}
-			}
-		case *ssa.UnOp:
-			if ia2, ok := x.X.(*ssa.IndexAddr); ok && (flow.GlobalLoad(ia2.X) == startsG || ia2.X == ssa.Value(startsG)) {
-				startVal = x
-				walk(ia2.Index, depth+1)
-			}
-		case *ssa.Index: // range over an array value loaded from the table
-			if flow.GlobalLoad(x.X) == startsG {
-				startVal = x
-				walk(x.Index, depth+1)
-			}
-		}
-	}
-	walk(posIA.Index, 0)
-	walk(ia.Index, 0)
-	walk(shl.Y, 0)
-	if iVal == nil || jPhi == nil || startVal == nil {
-		e.S.Unk(rule, site, "loop counters", "could not identify the range index over starts, the element value and the inner 0..1 counter in the position/shift expressions", e.posOf(store))
-		return
-	}
-	// inner trip count: j < K
-	jMax := int64(-1)
-	for _, r := range *jPhi.(*ssa.Phi).Referrers() {
-		if bo, ok := r.(*ssa.BinOp); ok && bo.Op == token.LSS && bo.X == jPhi {
-			if k, ok := flow.ConstInt(bo.Y); ok {
-				jMax = k
-			}
-		}
-	}
-	if jMax != 2 {
-		e.S.Bad(rule, site, "inner loop", fmt.Sprintf("the inner loop reads %d digit(s) per entry of starts, a byte has 2 hex digits", jMax), e.posOf(store), "")
-		return
-	}
-	// which array element becomes which field
-	fieldOf := map[int64]string{}
-	for _, r := range flow.Returns(dp) {
-		if !flow.IsNilConst(r.Results[len(r.Results)-1]) {
-			continue
-		}
-		// result #0 is a load of a local ID struct whose fields were stored from loads of n[k]
-		for _, b := range dp.Blocks {
-			for _, in := range b.Instrs {
-				s, ok := in.(*ssa.Store)
-				if !ok {
-					continue
-				}
-				fa, ok := s.Addr.(*ssa.FieldAddr)
-				if !ok {
-					continue
-				}
-				stt := structOf(fa.X.Type())
-				if stt == nil || stt.NumFields() != 2 {
-					continue
-				}
-				if ldv, ok := s.Val.(*ssa.UnOp); ok {
-					if ia3, ok := ldv.X.(*ssa.IndexAddr); ok && ia3.X == ssa.Value(arr) {
-						if k, ok := flow.ConstInt(ia3.Index); ok {
-							fieldOf[k] = stt.Field(fa.Field).Name()
-						}
-					}
-				}
-			}
-		}
-	}
-	if len(fieldOf) != 2 {
-		e.S.Unk(rule, site, "result", "could not relate the two accumulator words to the fields of the returned ID", e.Pos(dp))
-		return
-	}
-	e.S.Ok(rule, site, "result", fmt.Sprintf("ID{%s: n[1], %s: n[0]}", fieldOf[1], fieldOf[0]), e.Pos(dp))
-	// hex ordinal of a text position
-	ordinal := func(p int64) int64 {
-		h := p
-		for _, x := range hyph {
-			if int64(x) < p {
-				h--
-			}
-		}
-		return h
-	}
-	seen := map[string]string{}
-	for i := int64(0); i < int64(len(starts)); i++ {
-		for j := int64(0); j < jMax; j++ {
-			construct := fmt.Sprintf("i=%d,j=%d", i, j)
-			bind := map[ssa.Value]int64{iVal: i, jPhi: j, startVal: starts[i]}
-			if offPhi != nil {
-				bind[offPhi] = 0
-			}
-			p, ok1 := intExpr(posIA.Index, bind, 0)
-			el, ok2 := intExpr(ia.Index, bind, 0)
-			sh, ok3 := intExpr(shl.Y, bind, 0)
-			if !ok1 || !ok2 || !ok3 {
-				e.S.Unk(rule, site, construct, "position, element or shift expression uses operations outside + - * << >> & | on the loop counters", e.posOf(store))
-				continue
-			}
-			h := ordinal(p)
-			wantField, wantShift := "Higher", 60-4*(h%16)
-			if h >= 16 {
-				wantField = "Lower"
-			}
-			gotField, okF := fieldOf[el]
-			key := fmt.Sprintf("%s@%d", gotField, sh)
-			switch {
-			case !okF || el < 0 || el > 1:
-				e.S.Bad(rule, site, construct, fmt.Sprintf("text position %d is accumulated into n[%d], outside the two-word array", p, el), e.posOf(store), "")
-			case gotField != wantField || sh != wantShift:
-				e.S.Bad(rule, site, construct, fmt.Sprintf("hex digit #%d (text position %d) is OR-ed into %s at bit %d; big-endian order puts it into %s at bit %d", h, p, gotField, sh, wantField, wantShift), e.posOf(store), "")
-			case seen[key] != "":
-				e.S.Bad(rule, site, construct, "two digits target the same nibble "+key+" ("+seen[key]+")", e.posOf(store), "")
-			default:
-				seen[key] = construct
-				e.S.Ok(rule, site, construct, fmt.Sprintf("digit #%d at text position %d ↦ %s bits %d..%d", h, p, gotField, sh+3, sh), e.posOf(store))
-			}
-		}
-	}
-}
-
-func sameIndexAddr(v ssa.Value, ia *ssa.IndexAddr) bool {
-	x, ok := v.(*ssa.IndexAddr)
-	return ok && x.X == ia.X && x.Index == ia.Index
-}
 
 // ---- C05.digit
 
